@@ -27,7 +27,7 @@ CLAIMS = {
         "design": "DESIGN.md section 4 C03",
     },
     "C04": {
-        "text": "Bounded symbolic check with sequentialised producers: a machine whose actions send to their own interpreter (plain send / raise) at 6 symbolically selected positions (entry during start(), exit, transition actions, choose branch, always action), single sends and send_events() batches of symbolic size; under virtual time two producers sending at symbolic instants next to an after-timer and a slow action of symbolic duration. Oracle over the bracket log opened by on_event_received: every accepted event processed exactly once, brackets never nest, per-sender order preserved, eventless follow-ups complete inside their bracket, raised events are handled after the current bracket. Both engines. (Bursts larger than maxIterations: see C13.)",
+        "text": "Bounded symbolic check with sequentialised producers: a machine whose actions send to their own interpreter (plain send / raise) at 6 symbolically selected positions (entry during start(), exit, transition actions, choose branch, always action), single sends and send_events() batches of symbolic size; under virtual time two producers sending at symbolic instants next to an after-timer and a slow action of symbolic duration. Oracle over the bracket log opened by on_event_received: every accepted event processed exactly once, brackets never nest, per-sender order preserved, eventless follow-ups complete inside their bracket, raised events are handled after the current bracket. Both engines. (Bursts larger than maxIterations: see C13.) volume: n in {3, 40, 1100, 2100} external events with 0-2 raised follow-ups each, submitted as str / one re-used dict / fresh dicts / one re-used Event, one by one, as a batch or from two interleaved producers: each processed exactly once, no deadlock, payload intact.",
         "note": "NARROWER THAN THE STATEMENT: pre-emptive interleavings of two OS threads inside send()/_process_event_queue (check-then-set on the re-entrancy flag, lost wake-ups) are not covered - CrossHair executes one thread; producers are sequentialised and only WHERE/WHEN they send is symbolic. Trusts CrossHair/z3 and the virtual-time stubs.",
         "design": "DESIGN.md section 4 C04",
     },
@@ -37,12 +37,12 @@ CLAIMS = {
         "design": "DESIGN.md section 4 C13",
     },
     "C05": {
-        "text": "Bounded symbolic check: a feature machine (hierarchy, parallel, history incl. history targets from inside the parent, guards, assign/raise/choose/pure/enqueueActions, always, onDone, sync service, final output) is run on SyncInterpreter, on Interpreter (virtual-time loop, observed at quiescence) and through initial_transition/transition with the same symbolic events and guard outcomes; after every event configuration, context, status, output and the ordered action/marker traces with their triggering events are equal; one-step variant from every non-final configuration x recorded history; the pure functions run no user code and leave machine and snapshot unchanged.",
+        "text": "Bounded symbolic check: a feature machine (hierarchy, parallel, history incl. history targets from inside the parent, guards, assign/raise/choose/pure/enqueueActions, always, onDone, sync service, final output) is run on SyncInterpreter, on Interpreter (virtual-time loop, observed at quiescence) and through initial_transition/transition with the same symbolic events and guard outcomes; after every event configuration, context, status, output and the ordered action/marker traces with their triggering events are equal; one-step variant from every non-final configuration x recorded history; the pure functions run no user code and leave machine and snapshot unchanged; on skeletons with ambiguous keys every resolvable target spelling (symbolic string) leads both engines to the same configuration.",
         "note": "Trusts CrossHair/z3 and the virtual-time loop. One machine (FM, and FM without service for the pure API: the pure probe suppresses services by design); sequences of 2 (quick) / 3 events + the one-step variant. The synthetic init event handed to entry actions during start() is not compared (there is no triggering event).",
         "design": "DESIGN.md section 4 C05",
     },
     "C12": {
-        "text": "Bounded symbolic check (bisimulation step): from every constructed quiescent state of the feature machine (configuration x history x context) and from public runs cut after every event, snapshot -> from_snapshot (1-2 cycles; async start() resume) yields an interpreter equal in configuration, context, history, status, output, error, actors and systemIds, whose re-snapshot reproduces the snapshot, which is valid JSON and is not altered by later execution, and which agrees with the original on one more symbolic event; parent/child hierarchies with systemId (also after the parent completed); history skeletons; structurally corrupted snapshots (key x replacement symbolic) are rejected with a library error, unknown state ids with StateNotFoundError, non-JSON text with InvalidConfigError.",
+        "text": "Bounded symbolic check (bisimulation step): from every constructed quiescent state of the feature machine (configuration x history x context) and from public runs cut after every event, snapshot -> from_snapshot (1-2 cycles; async start() resume) yields an interpreter equal in configuration, context, history, status, output, error, actors and systemIds, whose re-snapshot reproduces the snapshot, which is valid JSON and is not altered by later execution, and which agrees with the original on one more symbolic event; parent/child hierarchies with systemId (also after the parent completed); history skeletons; structurally corrupted snapshots (key x replacement symbolic) are rejected with a library error, unknown state ids with StateNotFoundError, non-JSON text with InvalidConfigError; a context machine whose actions delete declared keys, add keys, store falsy values and clear the context is cut at a symbolic position: the restored context equals the uninterrupted one exactly.",
         "note": "Trusts CrossHair/z3; json encode/decode of concrete snapshots runs natively (common.native) because CrossHair's pure-Python json is pathologically slow - no symbolic value enters it. Corruption space = 9 keys x 13 replacements x 4 strings. Pending timers/in-flight services excepted as documented.",
         "design": "DESIGN.md section 4 C12",
     },
@@ -72,7 +72,7 @@ CLAIMS = {
         "design": "DESIGN.md section 4 C14",
     },
     "C10": {
-        "text": "Bounded symbolic check: one event from every stable configuration of a completion machine (3-region parallel state with history child, nested compound with its own onDone, targetless parallel onDone; also a variant with prefix-named regions) and symbolic event sequences from start(): onDone fires exactly when the independently recomputed doneness rises, never while a region is not final, done data = final state's output; top-level final: status done once, on_done once, machine-level output precedence (4 variants incl. falsy), later sends are no-ops, stop() still works. Both engines.",
+        "text": "Bounded symbolic check: one event from every stable configuration of a completion machine (3-region parallel state with history child, nested compound with its own onDone, targetless parallel onDone; also a variant with prefix-named regions) and symbolic event sequences from start(): onDone fires exactly when the independently recomputed doneness rises, never while a region is not final, done data = final state's output; top-level final: status done once, on_done once, machine-level output precedence (4 variants incl. falsy), later sends are no-ops, stop() still works; an id-less invoke on a compound with onDone never triggers that onDone; one event / one batch entering two top-level final states completes the machine once (on_done hook once, output not overwritten). Both engines.",
         "note": "Trusts CrossHair/z3 and done_ref in harness/c10.py. One fixed machine family (DM, DM2, TOP0-3), sequences <= 3 (quick) / 4; release of timers/services/actors by stop() after completion is C14's subject.",
         "design": "DESIGN.md section 4 C10",
     },
